@@ -69,7 +69,7 @@ var checks = map[string]checkCfg{
 		Rule: "one case = one seeded sequence of valid and invalid tag API calls (bad names, dangling/self/cyclic references, marks on stream 0 and unknown ids, unknown converters, renames onto existing names) interleaved with jobs; after every call the tag table projection is compared with a model (rejected => unchanged, accepted => exactly the requested change), the graph is checked (no dangling reference, no cycle, referenced mirrors definitions); a crash of the worker or a watchdog timeout is a violation. distinct = distinct schedule signature",
 		Real: realCommon, Stub: stubCommon,
 		Assume: []string{"which of {applied, rejected} happens is only prescribed where the property names it"}},
-	"C12": {Engine: "mgrsim", QuickS: 50, ThoroughS: 1500, Level: "fault_enumeration",
+	"C12": {Engine: "mgrsim", Engine2: "cachesim", QuickS: 50, ThoroughS: 1500, Level: "fault_enumeration",
 		Rule: "one case = one crash state: during a seeded run the data directory is copied at every I/O point (file create/write/flush/close/remove in manager, builder, index writer, snapshots, cache file) at which the tree changed, plus torn tails of the file being written; each distinct tree is restarted with manager.New, drained and compared with the model as of the snapshot instant (acknowledged tags/settings/endpoints, streams of applied imports under old ids with reference content, converged tags). Clean Close+New restarts are the fault-free configuration. distinct = distinct tree hash restarted",
 		Real: realCommon, Stub: stubCommon,
 		Assume: []string{"crash = process kill: the directory contents at that instant are the durable state (the code does not fsync)"}},
@@ -445,7 +445,7 @@ func runCheck(prop, tier string) int {
 	for _, k := range keys {
 		ol := a.viols[k]
 		eng := cfg.Engine
-		if cfg.Engine2 != "" && bytes.Contains(ol.Plan, []byte(`"stacks"`)) {
+		if cfg.Engine2 != "" && (bytes.Contains(ol.Plan, []byte(`"stacks"`)) || bytes.Contains(ol.Plan, []byte(`"cleanup_min"`))) {
 			eng = cfg.Engine2
 		}
 		rf := sim.ReplayFile{Property: ol.Viol.Property, Engine: eng, Oracle: ol.Viol.Oracle, Signature: ol.Viol.Signature, Message: ol.Viol.Message, Seed: ol.Seed, Run: ol.Run, Plan: ol.Plan, Steps: ol.Steps}
